@@ -617,7 +617,7 @@ pub fn stages(ctx: &Ctx) -> Vec<Stage> {
     let tier = ctx.tier;
     vec![
         Stage::new("systems-anchors", 12, move |i, rep| anchor_case(rep, i)),
-        Stage::new("systems", tier.pick(120_000, 1_000_000), move |i, rep| {
+        Stage::new("systems", tier.pick(120_000, 5_000_000), move |i, rep| {
             let mut rng = if i < 500 { Rng::for_case(4242, "c08-sys-anchor", i) } else { Rng::for_case(seed, "c08-sys", i) };
             regular_case(&mut rng, rep);
         }),
